@@ -9,7 +9,7 @@ rule = ("for each of the 22 indicators: an original (slot 0) is fed a history, c
         "(all merges of two length-L sequences for short L, random long interleavings, with unrelated ops on slot 2 in between) and a "
         "fourth instance (slot 3) built with the same parameters is fed history+continuation sequentially; every case is additionally "
         "executed concurrently on 16 OS threads and compared with the sequential result; plus a purity scan of /repo/src. "
-        "in every third case the clone target already exists in another fill state, so that the harness goes through Clone::clone_from. "
+        "in every third case the clone target already exists in another fill state — with the same parameters, a larger or a smaller window — so that the harness goes through Clone::clone_from. "
         "Non-trivial: distinct case whose continuation has >= 2 inputs")
 assumptions = ["thread interleavings are exercised (16 threads on distinct instances), not modelled",
                "purity scan: no static mut / thread_local / unsafe / Cell / RefCell / Mutex / Atomic / Rc / lazy_static / extern in /repo/src"]
@@ -71,8 +71,20 @@ def gen_cases(ctx):
                 if mi % 3 == 1:
                     # the clone target already exists (same parameters, another fill state): the harness then goes through
                     # Clone::clone_from, which an implementation may specialise (reuse of the window allocation)
-                    pre = feed(r, ind, r.choice([0, 1, p + 1]), slot=1)
-                    ops += [new_op(1, ind, pr)] + pre
+                    # ... with the same parameters (mi = 1, 10), a larger window (mi = 4: stale slots beyond the copied part) or a
+                    # smaller one (mi = 7: a ring shorter than the new period), used long enough to be full
+                    k_ = nper(ind)
+                    tp = pr
+                    if mi % 9 == 4 and k_ >= 1:
+                        tp = (pr[0] + 2, pr[1] + 2 if k_ >= 2 else 0, pr[2] + 1 if k_ >= 3 else 0, pr[3])
+                    elif mi % 9 == 7 and k_ >= 1 and pr[0] > 1:
+                        tp = (pr[0] - 1, max(1, pr[1] - 1) if k_ >= 2 else 0, pr[2], pr[3])
+                    npre = r.choice([0, 1, p + 1]) if tp == pr else max(tp[:3]) + 3
+                    pre = feed(r, ind, npre, slot=1)
+                    if tp != pr:
+                        # values well above the continuation's, so that a stale slot would win a maximum / distort a sum
+                        pre = [(o[0], 1) + tuple((v * 64.0 + 1000.0) if (o[0] == "n" or i_ < 4) and isinstance(v, float) and v == v else v for i_, v in enumerate(o[2:])) for o in pre]
+                    ops += [new_op(1, ind, tp)] + pre
                 ops += hist_ + [("c", 0, 1)]
                 # slot 4: same parameters, a different history drawn from a small grid (so that windows of different
                 # instances often share sums / extrema); compared below with a solo run of the same stream
